@@ -101,6 +101,8 @@ def table_mnemonic_contract(mnemonic, expr, resolver, tok, addr, v):
                     check("implied_is_one_byte", len(r) == 1)
                 else:
                     check("operand_le", le.is_le(r[1:], v, WIDTH[size]))
+                # C02 clause S for every cell: the size given while labels are resolved is the number of bytes emitted
+                check("label_pass_size_is_emitted_size", node.pc_after(addr).physical == addr.physical + len(r))
 
 
 def table_mnemonic_nosuffix_contract(mnemonic, expr, resolver, tok, addr, v):
@@ -122,6 +124,7 @@ def table_mnemonic_nosuffix_contract(mnemonic, expr, resolver, tok, addr, v):
             check("only_isa_instructions_nosuffix", expected is not None)
             check("opcode_byte_nosuffix", r[0] == expected)
             check("operand_le_nosuffix", le.is_le(r[1:], v, WIDTH[eff]))
+            check("label_pass_size_is_emitted_size_nosuffix", node.pc_after(addr).physical == addr.physical + len(r))
 
 
 def lower_size(c):
